@@ -121,7 +121,7 @@ func init() {
 
 		"strconv.ParseFloat":  ext۰strconv۰ParseFloat,
 		"strconv.FormatFloat": ext۰strconv۰FormatFloat,
-		"strconv.Quote":       func(fr *frame, a []value) value { return quoteModel(a[0]) },
+		"strconv.Quote":       func(fr *frame, a []value) value { return quoteSym(fr.i, a[0]) },
 
 		"unicode/utf8.DecodeRune":         ext۰utf8۰DecodeRune,
 		"unicode/utf8.DecodeRuneInString": ext۰utf8۰DecodeRuneInString,
@@ -367,11 +367,70 @@ func ext۰strconv۰FormatFloat(fr *frame, args []value) value {
 	return strconv.FormatFloat(args[0].(float64), args[1].(byte), args[2].(int), args[3].(int))
 }
 
-func quoteModel(s value) value {
+// quoteModel is strconv.Quote. Symbolic bytes are quoted exactly when they
+// are ASCII (decided per byte, forking if unconstrained); a symbolic byte that
+// may be >= 0x80 makes the result opaque (multi-byte sequences are not modelled).
+func quoteModel(s value) value { panic("use quoteSym") }
+
+func quoteSym(i *interpreter, s value) value {
 	if c, ok := s.(string); ok {
 		return strconv.Quote(c)
 	}
-	return opaqueStr("quote")
+	if isOpaque(s) {
+		return s
+	}
+	bs := strBytes(s)
+	// runs of concrete bytes are quoted natively (may contain multi-byte runes)
+	out := []value{uint8('"')}
+	var run []byte
+	flush := func() {
+		if len(run) > 0 {
+			q := strconv.Quote(string(run))
+			for k := 1; k < len(q)-1; k++ {
+				out = append(out, q[k])
+			}
+			run = nil
+		}
+	}
+	c8 := func(v uint64) *smt.Term { return smt.BVC(8, v) }
+	for _, b := range bs {
+		if c, ok := b.(uint8); ok {
+			run = append(run, c)
+			continue
+		}
+		flush()
+		t := termOf(b)
+		if !i.decide(smt.ULt(t, c8(0x80)), "quote-ascii") {
+			return opaqueStr("%q of a symbolic byte >= 0x80")
+		}
+		switch {
+		case i.decide(smt.Eq(t, c8('"')), "quote-dq"):
+			out = append(out, uint8('\\'), uint8('"'))
+		case i.decide(smt.Eq(t, c8('\\')), "quote-bs"):
+			out = append(out, uint8('\\'), uint8('\\'))
+		case i.decide(smt.And(smt.ULe(c8(0x20), t), smt.ULe(t, c8(0x7e))), "quote-print"):
+			out = append(out, b)
+		default:
+			esc := byte(0)
+			for _, p := range [][2]byte{{7, 'a'}, {8, 'b'}, {12, 'f'}, {10, 'n'}, {13, 'r'}, {9, 't'}, {11, 'v'}} {
+				if i.decide(smt.Eq(t, c8(uint64(p[0]))), "quote-esc") {
+					esc = p[1]
+					break
+				}
+			}
+			if esc != 0 {
+				out = append(out, uint8('\\'), esc)
+				break
+			}
+			hex := func(n *smt.Term) value { // 4-bit value in an 8-bit term -> hex digit
+				return valueOf(smt.Ite(smt.ULt(n, c8(10)), smt.Add(n, c8('0')), smt.Add(n, c8('a'-10))), types.Uint8)
+			}
+			out = append(out, uint8('\\'), uint8('x'), hex(smt.LShr(t, c8(4))), hex(smt.BVAnd(t, c8(15))))
+		}
+	}
+	flush()
+	out = append(out, uint8('"'))
+	return mkStr(out)
 }
 
 // ---- utf8 / unicode
